@@ -23,6 +23,10 @@ import (
 // lock order).
 //
 
+// The largest WRITE we accept: its data blocks must fit in one journal
+// transaction together with the inode, bitmap and indirect blocks it dirties.
+const maxWrite uint64 = (jrnl.LogBlocks - 32) * 4096
+
 func errRet(op *fstxn.FsTxn, status *nfstypes.Nfsstat3, err nfstypes.Nfsstat3) {
 	*status = err
 	util.DPrintf(2, "errRet %v", err)
@@ -294,7 +298,7 @@ func (nfs *Nfs) NFSPROC3_WRITE(args nfstypes.WRITE3args) nfstypes.WRITE3res {
 		errRet(op, &reply.Status, nfstypes.NFS3ERR_INVAL)
 		return reply
 	}
-	if uint64(args.Count) >= jrnl.LogBytes {
+	if uint64(args.Count) > maxWrite {
 		errRet(op, &reply.Status, nfstypes.NFS3ERR_INVAL)
 		return reply
 	}
@@ -838,7 +842,7 @@ func (nfs *Nfs) NFSPROC3_FSINFO(args nfstypes.FSINFO3args) nfstypes.FSINFO3res {
 	reply.Resok.Rtmax = 16 * 4096
 	reply.Resok.Rtmult = 4096
 	reply.Resok.Rtpref = reply.Resok.Rtmax
-	reply.Resok.Wtmax = nfstypes.Uint32(jrnl.LogBytes)
+	reply.Resok.Wtmax = nfstypes.Uint32(maxWrite)
 	reply.Resok.Wtpref = 16 * 4096
 	reply.Resok.Wtmult = 4096
 	reply.Resok.Dtpref = 16 * 4096
